@@ -84,8 +84,18 @@ let cdec_str isint = function
   | CNaN -> "nan"
   | CFin d -> num_canon isint d
 
+(* a digit run longer than this is not evaluated (quadratic bignum arithmetic on Coq's N):
+   no generated document has one; a marshalled number that has one is reported as TOOLONG *)
+let max_digit_run = 3000
+let long_digit_run (s : string) =
+  let best = ref 0 and cur = ref 0 in
+  String.iter (fun c -> if c >= '0' && c <= '9' then (incr cur; if !cur > !best then best := !cur) else cur := 0) s;
+  !best > max_digit_run
+
 let handle line =
   match String.split_on_char ' ' line with
+  | ("DEC" | "ENC") :: h :: _ when long_digit_run (unhex h) ->
+    "cue=TOOLONG spec=TOOLONG cls=- re=-"
   | "DEC" :: h :: _ ->
     let doc = bytes_of_string (unhex h) in
     let cue = canon_opt (c10_cue_decode doc) in
